@@ -324,6 +324,33 @@ def check(run, repo, world):
                "no operation rejecting %s outside 0..65535 before the first "
                "command is sent" % p, where(mod, fn))
 
+        # ... and nothing in 0..65535 is refused: the condition of every
+        # explicit raise, as a formula over the value, excludes the range
+        from .. import pred
+        from ..pathcond import path_conds, project
+        P = pred.Parser(pred.lin_of({p: "v"}))
+
+        def tree(t, P=P, p=p):
+            if p not in {n.id for n in ast.walk(t)
+                         if isinstance(n, ast.Name)}:
+                return None
+            try:
+                return P.tree(t)
+            except pred.Unrecognised:
+                return None
+        hyp = (("le", "0", "v", 0), ("le", "v", "0", -65535))
+        for n in cfg.reachable:
+            if not (n.kind == "stmt" and isinstance(n.ast, ast.Raise)):
+                continue
+            d = project(path_conds(cfg, n, tree, what="R-DT8-REJECT"),
+                        lambda a: a[0] == "le")
+            bad = [c for c in d if c and pred.sat(c, hyp)]
+            unguarded = any(not c for c in d)
+            run.ob("R-DT8-REJECT", "%s#%s-accepts-16-bit@raise" % (F, p),
+                   not bad or unguarded,
+                   "a value inside 0..65535 is refused: the raise is reached "
+                   "when %s" % pred.show(frozenset(bad)), where(mod, n))
+
     # ---- selector enumerations vs IEC 62386-209 ---------------------------
     import json
     import os
